@@ -8,13 +8,13 @@ LEVEL_TEXT = ("The real secretbox/box/sign glue is executed symbolically by CBMC
 LEVEL_TEXT += " AES-256-GCM (E2 irsym): the AES-NI/PCLMULQDQ unit's LLVM IR is executed on a concrete key and nonce (two fixed pairs) with message, associated data and forged-tag delta symbolic, and compared bit for bit with an SP 800-38D / FIPS-197 specification over the same symbols; both sides are GF(2)-affine in the symbols and are kept in canonical XOR normal form, tag acceptance under 'delta != 0' is decided by kissat. AEGIS-128L/256 AES-NI and portable units likewise with key and nonce symbolic as well."
 TRUSTED = ["CBMC 6.11 pointer model (pointer comparison/uintptr_t casts within one object)", "idealised cores (stubs/ideal.c)"]
 ASSUMPTIONS = ["offsets in [-80, 80], mlen in the enumerated set"]
-OUTSIDE = ["|offset| > 80", "AES-256-GCM partial overlap (exact aliasing c == m is covered by E2)", "SIMD stream back ends in place (E2, thorough)", "partial overlap for APIs that only document exact aliasing"]
+OUTSIDE = ["|offset| > 80", "AES-256-GCM partial overlap (exact aliasing c == m is covered by E2)", "SIMD stream back ends in place", "partial overlap for APIs that only document exact aliasing"]
 
 QD = [-80, -33, -17, -16, -15, -1, 0, 1, 5, 15, 16, 17, 31, 32, 33, 48, 80]
 QM = [0, 1, 32, 33, 40]
 
 
-E2_EQUIV = ['aes256gcm-aesni-inplace', 'aegis128l-aesni-inplace', 'aegis128l-soft-inplace', 'aegis256-aesni-inplace', 'aegis256-soft-inplace']
+E2_EQUIV = ['stream-ref-inplace', 'aes256gcm-aesni-inplace', 'aegis128l-aesni-inplace', 'aegis128l-soft-inplace', 'aegis256-aesni-inplace', 'aegis256-soft-inplace']
 
 
 def obligations(tier):
